@@ -42,10 +42,12 @@ def make_world(plan):
     cl.fetch_cut = c.get("fetch_cut", "bytes")
     cl.max_request_timeout = c.get("max_request_timeout", 5.0)
     api = c.get("api_versions")
+    by_node = c.get("api_versions_by_node") or {}
     for b in cl.brokers.values():
         tab = dict(NEWEST)
-        if api:
-            for k, rng in api.items():
+        api_b = by_node.get(str(b.node_id), api)
+        if api_b:
+            for k, rng in api_b.items():
                 if rng is None:
                     tab.pop(int(k), None)
                 else:
